@@ -10,6 +10,7 @@ import (
 	"os/exec"
 	"runtime/debug"
 	"sync"
+	"sync/atomic"
 	"time"
 )
 
@@ -76,9 +77,13 @@ func (d Driver[I, O]) child() {
 	}
 }
 
+// CrashRetries counts the cases that were run a second time because their child died or hung.
+var CrashRetries int64
+
 // runChunk runs inputs[lo:hi] in child processes, restarting after a crash.
 func (d Driver[I, O]) runChunk(self string, prop string, inputs []In[I], lo, hi int, res []childOut[O]) {
 	i := lo
+	retried := map[int]bool{}
 	for i < hi {
 		cmd := exec.Command(self, "-child")
 		cmd.Stderr = io.Discard
@@ -133,8 +138,15 @@ func (d Driver[I, O]) runChunk(self string, prop string, inputs []In[I], lo, hi 
 				lr = lineRes{nil, fmt.Errorf("timeout")}
 			}
 			if lr.err != nil {
-				// child died (or hung) on case i
-				res[i] = childOut[O]{Panic: "process died or hung: " + lr.err.Error()}
+				// child died (or hung) on case i.  Once is not a verdict: on a loaded machine a case can
+				// run into its time limit; the case is run again in a fresh child, and only a second
+				// death or hang is reported (the retries are counted in the run's meta data)
+				if !retried[i] {
+					retried[i] = true
+					atomic.AddInt64(&CrashRetries, 1)
+					break
+				}
+				res[i] = childOut[O]{Panic: "process died or hung (twice): " + lr.err.Error()}
 				i++
 				break
 			}
@@ -234,6 +246,12 @@ func (d Driver[I, O]) Main(prop string, args []string) {
 	var extra map[string]any
 	if d.Extra != nil {
 		extra = d.Extra()
+	}
+	if n := atomic.LoadInt64(&CrashRetries); n > 0 {
+		if extra == nil {
+			extra = map[string]any{}
+		}
+		extra["cases_run_again_after_a_child_died_or_hung_once"] = n
 	}
 	if err := WriteShards(*out, d.Spec, *tier, *seed, cases, d.PerShard, extra, direct, exhaustive); err != nil {
 		fmt.Fprintln(os.Stderr, "write:", err)
